@@ -86,8 +86,8 @@ class TypeScriptMagicNumberAnalyzer(TypeScriptBaseAnalyzer):  # thailint: ignore
         """
         text = self.extract_node_text(node)
         try:
-            # Try int first
-            if "." not in text and "e" not in text.lower():
+            # Prefixed literals (hex digits may contain 'e') and plain integers
+            if text[:2].lower() in ("0x", "0o", "0b") or ("." not in text and "e" not in text.lower()):
                 return int(text, 0)  # Handles hex, octal, binary
             # Otherwise float
             return float(text)
